@@ -121,6 +121,28 @@ def run_hv_split(mode, in_path, out_path, parts=6, args=(), timeout=3600, env=No
     return time.time() - t0
 
 
+def binding_demo(module, trace_path, mutate, pid, rejected=None, env_key="TRACE", **tlc_kw):
+    """Binding demonstration (thorough tier): a copy of the recorded trace with ONE field corrupted (or one event removed) by
+    `mutate(rows) -> (rows', what)` must be rejected by the trace-validation module.  `rejected(result)` decides (default:
+    the module printed a BAD line or a failed VERDICT).  Returns a sentence for the evidence; raises ToolError if the corrupted
+    trace is accepted (the specification would then not be bound to what the harness records)."""
+    rows = list(read_ndjson(trace_path))
+    rows2, what = mutate(rows)
+    bad = trace_path + ".corrupt"
+    write_ndjson(bad, rows2)
+    env = dict(tlc_kw.pop("env", {}) or {})
+    env[env_key] = bad
+    r = tlc(module, pid=pid, env=env, coverage=False, **tlc_kw)
+    if rejected is None:
+        def rejected(res):
+            vd = res.lines.get("VERDICT")
+            return bool(res.lines.get("BAD")) or bool(res.inv_violated) or bool(vd and not vd[-1].get("ok", True))
+    if not rejected(r):
+        raise ToolError("binding demonstration failed: %s accepted a trace in which %s" % (module, what))
+    os.remove(bad)
+    return "binding: %s rejects the recorded trace once %s" % (module, what)
+
+
 def read_ndjson(path):
     with open(path) as f:
         for line in f:
@@ -287,6 +309,7 @@ class Verdict:
         self.violations = []
         self.known_hits = {}
         self.n_replay = 0
+        self.binding = []          # sentences from binding_demo (thorough tier), appended to the evidence's assumptions
 
     def violation(self, obj):
         os.makedirs(REPLAYS, exist_ok=True)
@@ -311,7 +334,7 @@ class Verdict:
         coverage["known_finding_hits"] = {d: n for d, (n, _) in self.known_hits.items()}
         ev = {
             "property_id": self.pid, "tier": self.tier, "seed": seed(), "level": level,
-            "coverage": coverage, "assumptions": assumptions,
+            "coverage": coverage, "assumptions": list(assumptions) + list(self.binding),
             "wall_s": round(time.time() - self.t0, 2), "violations": len(self.violations),
         }
         with open(os.path.join(EVID, self.pid + ".json"), "w") as f:
